@@ -125,8 +125,13 @@ class Model():
 
         for cell in self.cells:
             if self.cells[cell].formula is not None:
+                # A cell name resolves to the cell's address, a range name
+                # to the range's address text (XLRange.address is the matrix
+                # of its cells).
                 defined_names = {
-                    name: defn.address
+                    name: (getattr(defn, 'address_str', defn.address)
+                           if isinstance(defn, xltypes.XLRange)
+                           else defn.address)
                     for name, defn in self.defined_names.items()}
                 self.cells[cell].formula.ast = parser.FormulaParser().parse(
                     self.cells[cell].formula.formula, defined_names)
